@@ -826,6 +826,12 @@ def method_render(self):
             if m:
                 s = '__cxa_throw (%s, %s, 0);' % (m.group(1), m.group(2))   # destructor pointer dropped
             # classify: assignment with binary rhs / unary / call
+            # value-initialisation of a std::vector member written out field by field (`x.v.<base>._M_impl.<base>._M_start = 0`):
+            # the three stores together make the vector empty; for the opaque mirror that is zeroing the object
+            mz = re.match(r'^(.*?)(?:\.D_\d+)?\._M_implD_\d+(?:\.D_\d+)?\._M_(?:start|finish|end_of_storage)D_\d+ = (?:_Literal \([^)]*\) )?0;$', s)
+            if mz:
+                lines.append('  __builtin_memset(&(%s), 0, 24); /* std::vector internals zeroed: empty vector */' % self.expr(mz.group(1)))
+                continue
             m = re.match(r'^(.*?) = (.*);$', s)
             iscall = False
             if m and balanced(m.group(1)):
